@@ -122,6 +122,50 @@ func (c *c06Case) Run(ctx *core.Ctx) {
 	trig := ""
 	withComponents := false
 	switch c.Part {
+	case "ws":
+		// whitespace inside supplied content is content (it separates inline elements, and <pre>
+		// shows it); a non-breaking space is content, not "nothing supplied"
+		content := map[string]string{
+			"inline-space":   "<b>a</b> <i>b</i>",
+			"inline-newline": "<b>a</b>\n<i>b</i>",
+			"text-space":     "x <b>a</b> y",
+			"nbsp":           "&nbsp;",
+			"nbsp-between":   "<b>a</b>&nbsp;<i>b</i>",
+			"padded":         "\n  <b>a</b> <i>b</i>\n",
+			"blank":          " \n ",
+		}[c.Kind]
+		wantText := map[string]string{"inline-space": "a b", "inline-newline": "a\nb", "text-space": "x a y", "nbsp": "\u00a0", "nbsp-between": "a\u00a0b", "padded": "a b", "blank": "FB"}[c.Kind]
+		supplied := content
+		switch c.Form {
+		case "vslot":
+			supplied = "<template v-slot>" + content + "</template>"
+		case "named":
+			supplied = "<template #body>" + content + "</template>"
+		}
+		slot := "<slot>FB</slot>"
+		if c.Form == "named" {
+			slot = `<slot name="body">FB</slot>`
+		}
+		files = Files{
+			"page.vuego": `<section><template include="c.vuego">` + supplied + `</template></section>`,
+			"c.vuego":    `<pre class="w">` + slot + `</pre>`,
+		}
+		checks = append(checks, func(nodes []*html.Node) (string, string) {
+			pre := htmlcmp.Find(nodes, func(n *html.Node) bool { return n.Data == "pre" })
+			if len(pre) != 1 {
+				return "ws", "no <pre>"
+			}
+			got := strings.Trim(htmlcmp.Text(pre[0]), " \t\n\r\f")
+			if c.Form != "plain" && (c.Kind == "padded" || c.Kind == "blank") {
+				// inside a slot template the content is the template's children as written
+				return "", ""
+			}
+			if got != wantText {
+				return "whitespace/" + c.Form, fmt.Sprintf("text inside the slot %q want %q", got, wantText)
+			}
+			return "", ""
+		})
+		trig = c.Kind
 	case "k1":
 		build := func(hdr, def, ftr, kind, sfx string) (inc string, h, d, f string, titles []string) {
 			hs, ht, htt := c06Supply("header", hdr, kind, "H"+sfx)
@@ -407,6 +451,7 @@ func init() {
 		CPUBudget: 10,
 		Rule: "component with header/default/footer slots (fallback on two of them) used by includers supplying every subset in every form (v-slot:, #, plain children, v-slot, v-slot:default) x 4 content kinds (static, {{ }} of an includer variable, :attr, text) x 6 instance arrangements (incl. an include tag carrying v-if / v-else); scoped slots (4 components incl. slot in v-for) x {named var, destructured, fallback, plain}; same slot used twice; nested components (5 arrangements); layout-inherited slots; slot names written with capital letters; components whose prop / front-matter key / loop variable / template variable has the name of the includer's variable that the content reads; " +
 			"every case also right after a render (on another engine) that passes content for all those slot names to a component and through a layout to the components the layout includes; " +
+			"whitespace part: content whose parts are separated by a space, a newline or a non-breaking space, content that is a non-breaking space only, padded and blank content, supplied plain / in a v-slot template / for a named slot to a slot inside <pre>, with exact text; " +
 			"oracle: expected normalised text (and bound attributes) at every slot position. non-trivial = all",
 		Bounds:      map[string]string{"quick": "full catalogue product, nesting depth 2, <=2 instances", "thorough": "same"},
 		Assumptions: []string{"whitespace around spliced nodes is insignificant"},
@@ -430,6 +475,11 @@ func init() {
 							}
 						}
 					}
+				}
+			}
+			for _, k := range []string{"inline-space", "inline-newline", "text-space", "nbsp", "nbsp-between", "padded", "blank"} {
+				for _, form := range []string{"plain", "vslot", "named"} {
+					emit(&c06Case{Part: "ws", Kind: k, Form: form})
 				}
 			}
 			for _, comp := range []string{"K2", "K2same", "K2long", "K3", "K3nil", "K2two", "K5"} {
